@@ -16,10 +16,10 @@ import (
 // and from what the request carried; it never looks at the response.
 
 type attempt struct {
-	acct     int
-	pid      string
-	kind     string // none | fail | primary_ok | second_ok | ambiguous
-	path     string
+	acct      int
+	pid       string
+	kind      string // none | fail | primary_ok | second_ok | ambiguous
+	path      string
 	hasFactor bool
 }
 
